@@ -1267,11 +1267,12 @@ func (w *Worktree) checkoutFileSymlink(fs *worktreeFilesystem, f *object.File) (
 	if err != nil && isSymlinkWindowsNonAdmin(err) {
 		mode, _ := f.Mode.ToOSFileMode()
 
-		to, err := fs.OpenFile(f.Name, os.O_WRONLY|os.O_CREATE|os.O_TRUNC, mode.Perm())
-		if err != nil {
-			return err
+		to, openErr := fs.OpenFile(f.Name, os.O_WRONLY|os.O_CREATE|os.O_TRUNC, mode.Perm())
+		if openErr != nil {
+			return openErr
 		}
 
+		// err is the named result: a failing Close is reported.
 		defer ioutil.CheckClose(to, &err)
 
 		_, err = to.Write(bytes)
